@@ -148,6 +148,7 @@ if ROUND == 9:
               "C06Q": "operands with more than 2048 stored entries (Elementwise_Big shared with C03)",
               "C07Q": "spellings of the target shape of a reshape: tuple, list, integer array, bare integer",
               "C09Q": "sparse data with a sparsely populated mode (sparse single-mode products)",
+              "C11Q": "admissible guesses with complementary zeros in two factor matrices (model zero at an observed count)",
               "C13Q": "the bare zero sampler with and without replacement (kind 'zeros' in Sampler.tla)",
               "C14Q": "Tucker tensors with unit-norm but oblique factors",
               "C16Q": "the index base as a numpy integer scalar, also of a narrow type",
